@@ -17,6 +17,7 @@ func init() {
 			"Added in round 2: L1 extends to any further content-bearing field of Dir/File (slices, maps, atomic.Value, sync.Map: a cached listing or memo is only touched under the node's mutex); L4 also requires that Writer builds its stream handle (which takes the file's data lock) under the same hold of the directory's outer lock as the reset/create; L7 a buffer that receives a copy of File.data is sized from len(File.data) read under the same hold that copies (length before the lock + content under it = a value nobody wrote). " +
 			"Added in round 5: L8 a value stored into a field of a node under its lock is computed only from fields of that node read under the same continuous hold (read under RLock, unlock, publish under Lock installs a stale value over a newer state). " +
 			"Added in round 6: L9 ReadDir/ReadFile hand out fresh copies (same rule as C01.R5): a clipped view of Dir.nodes is rewritten in place by a later Remove. " +
+			"Added in round 7: the lock engine reads once.Do(mu.Unlock) (sync.Once with a bound Unlock/RUnlock) as the release of that lock. " +
 			"NOT decided: linearizability, visibility and atomicity of overlapping operations (e.g. Remove(d) racing WriteFile(d/x)), liveness under real schedules; those need a dynamic or model-checking technique.",
 		Assumptions: []string{"two SSA values denote the same object when they are the same register or the same field path from the same parameter (fields holding sub-objects are not reassigned between lock and use)"}})
 }
